@@ -73,7 +73,11 @@ func AuthFirstPacket(firstPacket []byte, transport Transport, sta *State) (info 
 		return
 	}
 
-	if sta.registerRandom(fragments.randPubKey) {
+	// X25519 ignores the most significant bit of the peer's public value, and that bit is outside the
+	// 12 bytes used as nonce: register the canonical form so a copy with the bit flipped is a replay
+	usedKey := fragments.randPubKey
+	usedKey[31] &= 0x7f
+	if sta.registerRandom(usedKey) {
 		err = ErrReplay
 		return
 	}
